@@ -744,4 +744,3 @@ func crossesBackEdgeOnly(a, b ssa.Instruction) bool {
 	walk(pa.b, pa.i+1)
 	return !found
 }
-
